@@ -40,7 +40,9 @@ R = Registry(
         "a second check-in; the gc finalizer acts on a record only after comparing the record's fairy_ref "
         "with the weakref it was called with; _create_connection() only behind a taken overflow slot; the "
         "limit comparisons of QueuePool agree on the cut point; checkout blocks iff at the limit and times "
-        "out only after blocking; the deque is appended/popped only after a fresh not-full/not-empty outcome."
+        "out only after blocking; the deque is appended/popped only after a fresh not-full/not-empty outcome; every "
+        "exceptional exit of a function of pool/base.py that holds a record and hands it back on its way also hands it "
+        "back (no slot is lost when a finaliser, listener, reset or reconnect raises or is cancelled: C25-R7)."
     ),
     not_decided=(
         "absence of races for all thread schedules (model checking); the unlocked read of _overflow in "
@@ -1658,13 +1660,11 @@ class _Slots:
     def hand_back(self, f, call, depth=0):
         """Dotted texts (in `f`'s names) of the records that `call` hands back to the pool on all its normal paths."""
         nm = call_name(call)
-        if nm is None or "." not in nm:
-            # module-level function (`_finalize_fairy(...)`)
-            if nm is None:
-                return set()
+        if nm is None:
+            return set()
         parts = nm.split(".")
         if "dispatch" in parts:
-            return set()
+            return set()                         # an event of that name, not the method
         if len(parts) >= 2 and parts[-1] in _RETURN_PRIMS:
             if len(call.args) == 1 and not call.keywords and dotted(call.args[0]):
                 return {dotted(call.args[0])}
@@ -1741,7 +1741,7 @@ class _Slots:
                         continue
                     full, part = _edges_establishing(g, fi.node, self.excuse(names))
                     w = g.witness([g.entry], [g.exit], avoid=nodes,
-                                  edge_ok=both(no_exc, cut_edges(infeasible), cut_edges(full + part)))
+                                  edge_ok=both(no_exc, cut_edges(infeasible), cut_edges(full)))
                     if w is None:
                         res.add(canon)
             res = frozenset(res)
@@ -1826,11 +1826,8 @@ def every_exit_hands_back(ctx):
             ok_edges = both(quiet(g), no_fault, cut_edges(full))
             # path-sensitive on flag locals (`done = False ... finally: if not done: <hand back>`)
             w = ps.witness(starts, [g.raise_exit], avoid=avoid, edge_ok=ok_edges)
-            if w is not None and part and ps.witness(starts, [g.raise_exit], avoid=avoid,
-                                                     edge_ok=both(ok_edges, cut_edges(part))) is None:
-                t = g.nodes[part[0][0]].stmt
-                ctx.require(False, f"{f.key}: an exceptional exit without hand-back of `{canon}` depends on an outcome of "
-                                   f"`{unparse(t.test)[:80]}` that excuses it on some alternatives only; not understood")
+            # (an outcome that excuses on some of its alternatives only -- `if rec and echo:` false -- is no excuse: it can be
+            # taken with the record owed)
             region = g.reachable(starts, avoid=avoid, edge_ok=ok_edges)
             leaks = []
             for nid in sorted(region):
@@ -2208,3 +2205,165 @@ R.mutant("put-timed-wait-once", QUEUE,
          sub("                endtime = _time() + timeout\n                while self._full():\n                    remaining = endtime - _time()\n"
              "                    if remaining <= 0.0:\n                        raise Full\n                    self.not_full.wait(remaining)\n",
              "                if self._full():\n                    self.not_full.wait(timeout)\n                    if self._full():\n                        raise Full\n"), "C25-R4")
+
+# ---------------------------------------------------------------------- C25-R7 (every exceptional exit hands the record back)
+# Inputs named r7-* / benign-r7-* apply to today's tree.  The keys `…_ConnectionRecord.checkin:…` and `…_finalize_fairy:…`
+# FIRE on today's tree (findings/C24_failing_finaliser_leaks_pool_slot.py, C25_failing_checkin_listener_leaks_pool_slot.py,
+# C26_cancel_during_reset_skips_checkin.py), so a mutant of those two functions cannot add a new (rule, key) today: the inputs
+# for them are written against the FIXED shape (/tmp/fx/pool_fix1.patch, pool_fix2.patch) and kept in AFTER_FIX.
+# ==> After the two `fix:` commits: turn every entry of AFTER_FIX into a plain `R.mutant(*entry)` (drop the env switch below);
+#     until then `C25_R7_AFTER_FIX=1 SQLASTATIC_ROOT=<tree with both patches> ./check C25 --selftest-only` runs them.
+R.mutant("r7-checkout-get-connection-handler-narrowed-to-exception", POOL,
+         sub("            dbapi_connection = rec.get_connection()\n        except BaseException as err:",
+             "            dbapi_connection = rec.get_connection()\n        except Exception as err:"), "C25-R7")
+R.mutant("r7-checkout-get-connection-outside-any-handler", POOL,
+         sub("        try:\n            dbapi_connection = rec.get_connection()\n        except BaseException as err:\n"
+             "            with util.safe_reraise():\n                rec._checkin_failed(err, _fairy_was_created=False)\n\n"
+             "            # not reached, for code linters only\n            raise\n",
+             "        dbapi_connection = rec.get_connection()\n"), "C25-R7")
+R.mutant("r7-checkin-failed-terminates-by-hand-before-checkin", POOL,
+         sub("        self.invalidate(e=err)\n        self.checkin(\n",
+             "        if self.dbapi_connection is not None:\n            self.__pool._dialect.do_terminate(self.dbapi_connection)\n"
+             "            self.dbapi_connection = None\n        self.checkin(\n"), "C25-R7")
+R.mutant("r7-fairy-checkout-outer-handler-narrowed-to-exception", POOL,
+         sub("            except BaseException as be_outer:", "            except Exception as be_outer:"), "C25-R7")
+R.mutant("r7-fairy-checkout-reconnect-handler-narrowed-to-exception", POOL,
+         sub("                except BaseException as err:\n                    with util.safe_reraise():\n"
+             "                        fairy._connection_record._checkin_failed(",
+             "                except Exception as err:\n                    with util.safe_reraise():\n"
+             "                        fairy._connection_record._checkin_failed("), "C25-R7")
+R.mutant("r7-fairy-checkout-exhausted-only-soft-invalidates", POOL,
+         sub("        fairy.invalidate()\n        raise exc.InvalidRequestError", "        fairy.invalidate(soft=True)\n        raise exc.InvalidRequestError"),
+         "C25-R7")
+R.mutant("r7-detach-event-dispatched-before-the-record-is-returned", POOL,
+         sub("            rec.dbapi_connection = None\n            # TODO: should this be _return_conn?\n",
+             "            rec.dbapi_connection = None\n            if self._pool.dispatch.detach:\n"
+             "                self._pool.dispatch.detach(self.dbapi_connection, rec)\n            # TODO: should this be _return_conn?\n"),
+         "C25-R7")
+R.mutant("r7-return-conn-wrapper-runs-a-listener-first", POOL,
+         sub("        self._do_return_conn(record)\n", "        self.dispatch.checkin(record.dbapi_connection, record)\n        self._do_return_conn(record)\n"),
+         "C25-R7")
+R.mutant("benign-r7-checkin-failed-logs-first", POOL,
+         sub("        self.invalidate(e=err)\n        self.checkin(\n",
+             "        self.__pool.logger.debug(\"checkin after failure: %r\", err)\n        self.invalidate(e=err)\n        self.checkin(\n"), None)
+R.mutant("benign-r7-checkout-give-back-helper", POOL,
+         chain(sub("                rec._checkin_failed(err, _fairy_was_created=False)\n", "                cls._abort_checkout(rec, err)\n"),
+               sub("    def _checkin_failed(\n        self, err: BaseException, _fairy_was_created: bool = True\n    ) -> None:\n",
+                   "    @classmethod\n    def _abort_checkout(cls, rec: _ConnectionRecord, err: BaseException) -> None:\n"
+                   "        rec._checkin_failed(err, _fairy_was_created=False)\n\n"
+                   "    def _checkin_failed(\n        self, err: BaseException, _fairy_was_created: bool = True\n    ) -> None:\n")), None)
+R.mutant("benign-r7-fairy-checkout-outer-handler-inverted-test", POOL,
+         sub("                    if rec is not None:\n                        rec._checkin_failed(\n                            be_outer,\n"
+             "                            _fairy_was_created=True,\n                        )\n",
+             "                    if rec is None:\n                        pass\n                    else:\n                        rec._checkin_failed(\n"
+             "                            be_outer,\n                            _fairy_was_created=True,\n                        )\n"), None)
+R.mutant("benign-r7-fairy-checkout-exhausted-hard-invalidate-by-keyword", POOL,
+         sub("        fairy.invalidate()\n        raise exc.InvalidRequestError", "        fairy.invalidate(soft=False)\n        raise exc.InvalidRequestError"), None)
+R.mutant("benign-r7-detach-pool-alias-and-local-record", POOL,
+         sub("            self._pool._do_return_conn(self._connection_record)\n", "            pool = self._pool\n            pool._do_return_conn(rec)\n"), None)
+R.mutant("benign-r7-checkout-container-bookkeeping-while-held", POOL,
+         sub("        echo = pool._should_log_debug()\n        fairy = _ConnectionFairy(pool, dbapi_connection, rec, echo)\n",
+             "        echo = pool._should_log_debug()\n        seen = list(_strong_ref_connection_records.values())\n"
+             "        if echo:\n            pool.logger.debug(\"%d record(s) strongly referenced\", len(seen))\n"
+             "        fairy = _ConnectionFairy(pool, dbapi_connection, rec, echo)\n"), None)
+
+_R7_CHECKIN_FIXED = (
+    "        try:\n            while self.finalize_callback:\n                finalizer = self.finalize_callback.pop()\n"
+    "                if connection is not None:\n                    finalizer(connection)\n            if pool.dispatch.checkin:\n"
+    "                pool.dispatch.checkin(connection, self)\n        except BaseException as err:\n"
+    "            # the connection may not be completely reset: don't pool it,\n            # but give the pool its slot back\n"
+    "            self.finalize_callback.clear()\n            self.invalidate(e=err)\n            pool._return_conn(self)\n            raise\n"
+    "\n        pool._return_conn(self)\n")
+_R7_CHECKIN_BODY = (
+    "            while self.finalize_callback:\n                finalizer = self.finalize_callback.pop()\n"
+    "                if connection is not None:\n                    finalizer(connection)\n            if pool.dispatch.checkin:\n"
+    "                pool.dispatch.checkin(connection, self)\n")
+_R7_FINALIZE_FIXED = (
+    "                # the checkin below is not reached\n                if (\n                    connection_record\n"
+    "                    and connection_record.fairy_ref is not None\n                ):\n                    connection_record.checkin()\n"
+    "                raise\n")
+AFTER_FIX = [
+    # ---- breaking, checkin (fix 1)
+    ("r7-checkin-unfixed-finaliser-and-listener-outside-any-handler", POOL,
+     sub(_R7_CHECKIN_FIXED,
+         "        while self.finalize_callback:\n            finalizer = self.finalize_callback.pop()\n            if connection is not None:\n"
+         "                finalizer(connection)\n        if pool.dispatch.checkin:\n            pool.dispatch.checkin(connection, self)\n\n"
+         "        pool._return_conn(self)\n"), "C25-R7"),
+    ("r7-checkin-handler-narrowed-to-exception", POOL,
+     sub("        except BaseException as err:\n            # the connection may not be completely reset",
+         "        except Exception as err:\n            # the connection may not be completely reset"), "C25-R7"),
+    ("r7-checkin-handler-discards-but-keeps-the-slot", POOL,
+     sub("            self.invalidate(e=err)\n            pool._return_conn(self)\n            raise\n", "            self.invalidate(e=err)\n            raise\n"),
+     "C25-R7"),
+    ("r7-checkin-handler-returns-the-slot-for-exception-only", POOL,
+     sub("            self.invalidate(e=err)\n            pool._return_conn(self)\n            raise\n",
+         "            self.invalidate(e=err)\n            if isinstance(err, Exception):\n                pool._return_conn(self)\n            raise\n"),
+     "C25-R7"),
+    ("r7-checkin-listeners-moved-behind-the-handler", POOL,
+     sub(_R7_CHECKIN_FIXED,
+         _R7_CHECKIN_FIXED.replace("            if pool.dispatch.checkin:\n                pool.dispatch.checkin(connection, self)\n", "")
+         .replace("            raise\n\n", "            raise\n        if pool.dispatch.checkin:\n            pool.dispatch.checkin(connection, self)\n\n")),
+     "C25-R7"),
+    ("r7-checkin-failure-helper-forgets-the-slot", POOL,
+     chain(sub("            self.finalize_callback.clear()\n            self.invalidate(e=err)\n            pool._return_conn(self)\n            raise\n",
+               "            self._discard_unreset(err)\n            raise\n"),
+           sub("    def checkin(self, _fairy_was_created: bool = True) -> None:\n",
+               "    def _discard_unreset(self, err: BaseException) -> None:\n        self.finalize_callback.clear()\n        self.invalidate(e=err)\n\n"
+               "    def checkin(self, _fairy_was_created: bool = True) -> None:\n")), "C25-R7"),
+    # ---- breaking, _finalize_fairy (fix 2)
+    ("r7-finalize-fairy-unfixed-reraise-skips-checkin", POOL, sub(_R7_FINALIZE_FIXED, "                raise\n"), "C25-R7"),
+    ("r7-finalize-fairy-reraise-checks-in-only-when-marker-cleared", POOL,
+     sub("                    and connection_record.fairy_ref is not None\n                ):\n                    connection_record.checkin()\n                raise\n",
+         "                    and connection_record.fairy_ref is None\n                ):\n                    connection_record.checkin()\n                raise\n"),
+     "C25-R7"),
+    ("r7-finalize-fairy-reset-handler-narrowed-to-exception", POOL,
+     sub("        except BaseException as e:\n            pool.logger.error(\n                \"Exception during reset or similar\"",
+         "        except Exception as e:\n            pool.logger.error(\n                \"Exception during reset or similar\""), "C25-R7"),
+    # ---- benign, checkin
+    ("benign-r7-checkin-slot-returned-in-finally", POOL,
+     sub("            self.invalidate(e=err)\n            pool._return_conn(self)\n            raise\n\n        pool._return_conn(self)\n",
+         "            self.invalidate(e=err)\n            raise\n        finally:\n            pool._return_conn(self)\n"), None),
+    ("benign-r7-checkin-done-flag-and-finally", POOL,
+     sub(_R7_CHECKIN_FIXED,
+         "        drained = False\n        try:\n" + _R7_CHECKIN_BODY + "            drained = True\n        finally:\n            if not drained:\n"
+         "                self.finalize_callback.clear()\n                self.invalidate()\n            pool._return_conn(self)\n"), None),
+    ("benign-r7-checkin-failure-helper-returns-the-slot", POOL,
+     chain(sub("            self.finalize_callback.clear()\n            self.invalidate(e=err)\n            pool._return_conn(self)\n            raise\n",
+               "            self._discard_and_return(pool, err)\n            raise\n"),
+           sub("    def checkin(self, _fairy_was_created: bool = True) -> None:\n",
+               "    def _discard_and_return(self, pool: Pool, err: BaseException) -> None:\n        self.finalize_callback.clear()\n"
+               "        self.invalidate(e=err)\n        pool._return_conn(self)\n\n"
+               "    def checkin(self, _fairy_was_created: bool = True) -> None:\n")), None),
+    ("benign-r7-checkin-drain-helper-inside-the-try", POOL,
+     chain(sub("        try:\n            while self.finalize_callback:\n                finalizer = self.finalize_callback.pop()\n"
+               "                if connection is not None:\n                    finalizer(connection)\n            if pool.dispatch.checkin:\n",
+               "        try:\n            self._run_finalizers(connection)\n            if pool.dispatch.checkin:\n"),
+           sub("    def checkin(self, _fairy_was_created: bool = True) -> None:\n",
+               "    def _run_finalizers(self, connection: Optional[DBAPIConnection]) -> None:\n        while self.finalize_callback:\n"
+               "            finalizer = self.finalize_callback.pop()\n            if connection is not None:\n                finalizer(connection)\n\n"
+               "    def checkin(self, _fairy_was_created: bool = True) -> None:\n")), None),
+    ("benign-r7-checkin-safe-reraise-spelling", POOL,
+     sub("            self.finalize_callback.clear()\n            self.invalidate(e=err)\n            pool._return_conn(self)\n            raise\n",
+         "            with util.safe_reraise():\n                self.finalize_callback.clear()\n                self.invalidate(e=err)\n"
+         "                pool._return_conn(self)\n"), None),
+    # ---- benign, _finalize_fairy
+    ("benign-r7-finalize-fairy-checkin-in-finally", POOL,
+     chain(sub(_R7_FINALIZE_FIXED, "                raise\n"),
+           sub("                pool.logger.error(message)\n                util.warn(message)\n",
+               "                pool.logger.error(message)\n                util.warn(message)\n"
+               "            if connection_record and connection_record.fairy_ref is not None:\n                connection_record.checkin()\n")), None),
+    ("benign-r7-finalize-fairy-still-out-flag-local", POOL,
+     sub("                if (\n                    connection_record\n                    and connection_record.fairy_ref is not None\n                ):\n"
+         "                    connection_record.checkin()\n                raise\n",
+         "                still_out = (\n                    connection_record is not None\n                    and connection_record.fairy_ref is not None\n"
+         "                )\n                if still_out:\n                    connection_record.checkin()\n                raise\n"), None),
+    ("benign-r7-finalize-fairy-nested-ifs-early-raise", POOL,
+     sub("                if (\n                    connection_record\n                    and connection_record.fairy_ref is not None\n                ):\n"
+         "                    connection_record.checkin()\n                raise\n",
+         "                if not connection_record:\n                    raise\n                if connection_record.fairy_ref is None:\n                    raise\n"
+         "                connection_record.checkin()\n                raise\n"), None),
+]
+import os as _os  # noqa: E402
+if _os.environ.get("C25_R7_AFTER_FIX"):
+    for _a in AFTER_FIX:
+        R.mutant(*_a)
